@@ -7,6 +7,7 @@ pub mod run;
 pub mod sched;
 pub mod c04;
 pub mod c09;
+pub mod c10;
 pub mod c18;
 pub mod c22;
 pub mod c_engine;
@@ -28,6 +29,7 @@ pub fn dispatch(id: &str, ctx: &mut ev::Ctx) -> bool {
         "C07" => c_engine::run_c07(ctx),
         "C08" => c_engine::run_c08(ctx),
         "C09" => c09::run(ctx),
+        "C10" => c10::run(ctx),
         "C16" => c_fd::run(ctx, "C16"),
         "C17" => c_fd::run(ctx, "C17"),
         "C18" => c18::run(ctx),
